@@ -196,6 +196,9 @@ type Conversation struct {
 	digest  [sha256.Size]byte
 
 	revealKeys, sigKeys akeKeys
+	// revealSig is the Reveal Signature message sent when entering
+	// authStateAwaitingSig, kept for retransmission.
+	revealSig []byte
 
 	myKeyId         uint32
 	myCurrentDHPub  *big.Int
@@ -370,7 +373,8 @@ func (c *Conversation) Receive(in []byte) (out []byte, encrypted bool, change Se
 				err = errors.New("otr: unexpected duplicate DH key")
 				return
 			}
-			toSend = c.encode(c.generateRevealSig())
+			c.revealSig = c.generateRevealSig()
+			toSend = c.encode(c.revealSig)
 			c.authState = authStateAwaitingSig
 		case authStateAwaitingSig:
 			var isSame bool
@@ -378,7 +382,9 @@ func (c *Conversation) Receive(in []byte) (out []byte, encrypted bool, change Se
 				return
 			}
 			if isSame {
-				toSend = c.encode(c.serializeDHKey())
+				// The peer sent its DH key again: retransmit the
+				// Reveal Signature message.
+				toSend = c.encode(c.revealSig)
 			}
 		}
 	case msgTypeRevealSig:
